@@ -99,6 +99,7 @@ def tasks(tier):
         for k, g in sorted(groups.items(), key=str):
             ts.append(("%s %s" % (cn, k), "run_scheme", dict(modname=mn, clsname=cn, cfgs=g, tier=tier)))
     ts.append(("permutation-vs-element", "run_perm", dict(tier=tier)))
+    ts.append(("purity", "run_purity", {}))
     ts.append(("canary", "run_canary", {}))
     return ts
 
@@ -344,6 +345,52 @@ def run_scheme(col, modname, clsname, cfgs, tier):
             return not bad, "%s: %s" % (where, "; ".join(bad[:4])) if bad else "all %d points inside" % n
         col.check("C05.O2", "%s points in domain" % label, "every point lies in the closed reference domain", chk_dom)
         col.info["configs_checked"] = col.info.get("configs_checked", 0) + 1
+    finish_info(col, it)
+
+
+class RecordingPlotter:
+    def __init__(self):
+        self.calls = []
+
+    def add_points(self, *a, **kw):
+        self.calls.append(kw)
+        return self
+
+
+def run_purity(col):
+    """O6: a scheme is a value: plotting it (also weighted), inverting it or asking for its attributes does not change its points and weights"""
+    it = new_interp()  # exact literals suffice here
+    small = dict(GaussLegendre=[dict(order=2, dim=2), dict(order=1, dim=3, permute=False)], GaussLegendreBoundary=[dict(order=2, dim=3)],
+                 GaussLobatto=[dict(order=2, dim=2)], GaussLobattoBoundary=[dict(order=2, dim=3)], Triangle=[dict(order=3)], Tetrahedron=[dict(order=3)],
+                 BazantOh=[dict(n=21)])
+    nchecked = 0
+    for mn, cn in _discover(it):
+        for cfg in small.get(cn, []):
+            cls = it.get(mn + ":" + cn)
+            label = "%s(%s)" % (cn, ", ".join("%s=%s" % kv for kv in cfg.items()))
+            sc = it.call(cls, [], dict(cfg))
+            p0 = npmodel.to_obj(it.getattr(sc, "points")).copy()
+            w0 = npmodel.to_obj(it.getattr(sc, "weights")).copy()
+
+            def same():
+                p1 = npmodel.to_obj(it.getattr(sc, "points"))
+                w1 = npmodel.to_obj(it.getattr(sc, "weights"))
+                return p1.shape == p0.shape and w1.shape == w0.shape and all(ring.is_zero(P(a) - P(b)) for a, b in zip(p1.reshape(-1), p0.reshape(-1))) and all(
+                    ring.is_zero(P(a) - P(b)) for a, b in zip(w1.reshape(-1), w0.reshape(-1)))
+
+            for weighted in (False, True):
+                def chk(weighted=weighted):
+                    pl = RecordingPlotter()
+                    it.call_method(sc, "plot", [], dict(plotter=pl, weighted=weighted))
+                    return same() and len(pl.calls) == p0.shape[0], "quadrature/_scheme.py Scheme.plot: points/weights changed or %d of %d points drawn" % (len(pl.calls), p0.shape[0])
+                col.check("C05.O6", "%s.plot(weighted=%s) leaves the rule unchanged" % (label, weighted), "plotting draws every point and does not alter points or weights", chk)
+            if cls.find("inv")[0] is not None:
+                def chk_inv():
+                    it.call_method(sc, "inv", [])
+                    return same(), "%s: inv() altered the rule it was called on" % where_of(cls)
+                col.check("C05.O6", "%s.inv() leaves the rule unchanged" % label, "inv() returns a new scheme and does not alter this one", chk_inv)
+            nchecked += 1
+    col.info["purity_configs"] = nchecked
     finish_info(col, it)
 
 
